@@ -49,7 +49,7 @@ theorem roundStoreBcast_sameCore (s s' : State) (m : Msg) (h : roundStoreBcast s
     · simp at h
     · simp at h; subst h; simp [SameCore]
 
-theorem verifyMessage_sameCore (s s' : State) (m : Msg) (h : verifyMessage s m = some s') : SameCore s s' := by
+theorem verifyMessage_sameCore (s s' : State) (m : Msg) (h : verifyMessage s m = .ok s') : SameCore s s' := by
   unfold verifyMessage at h
   split at h
   · simp at h; subst h; exact SameCore.refl _
@@ -57,9 +57,15 @@ theorem verifyMessage_sameCore (s s' : State) (m : Msg) (h : verifyMessage s m =
     · simp at h; subst h; exact SameCore.refl _
     · split at h
       · simp at h
-      · exact roundStoreP2P_sameCore s s' m h
+      · split at h
+        · simp at h
+        · split at h
+          · simp at h
+          · next s2 hs =>
+            simp at h; subst h
+            exact roundStoreP2P_sameCore s _ m hs
 
-theorem verifyBroadcastMessage_sameCore (s s' : State) (m : Msg) (h : verifyBroadcastMessage s m = some s') :
+theorem verifyBroadcastMessage_sameCore (s s' : State) (m : Msg) (h : verifyBroadcastMessage s m = .ok s') :
     SameCore s s' := by
   unfold verifyBroadcastMessage at h
   split at h
@@ -68,21 +74,23 @@ theorem verifyBroadcastMessage_sameCore (s s' : State) (m : Msg) (h : verifyBroa
     · simp at h
     · split at h
       · simp at h
-      · next s1 h1 =>
-        have l1 := roundStoreBcast_sameCore s s1 m h1
-        split at h
-        · simp at h; subst h; exact l1
-        · split at h
+      · split at h
+        · simp at h
+        · next s1 h1 =>
+          have l1 := roundStoreBcast_sameCore s s1 m h1
+          split at h
           · simp at h; subst h; exact l1
-          · exact l1.trans (verifyMessage_sameCore s1 s' _ h)
+          · split at h
+            · simp at h; subst h; exact l1
+            · exact l1.trans (verifyMessage_sameCore s1 s' _ h)
 
 theorem roundStoreP2P_sameLife (s s' : State) (m : Msg) (h : roundStoreP2P s m = some s') : SameLife s s' :=
   (roundStoreP2P_sameCore s s' m h).toSameLife
 theorem roundStoreBcast_sameLife (s s' : State) (m : Msg) (h : roundStoreBcast s m = some s') : SameLife s s' :=
   (roundStoreBcast_sameCore s s' m h).toSameLife
-theorem verifyMessage_sameLife (s s' : State) (m : Msg) (h : verifyMessage s m = some s') : SameLife s s' :=
+theorem verifyMessage_sameLife (s s' : State) (m : Msg) (h : verifyMessage s m = .ok s') : SameLife s s' :=
   (verifyMessage_sameCore s s' m h).toSameLife
-theorem verifyBroadcastMessage_sameLife (s s' : State) (m : Msg) (h : verifyBroadcastMessage s m = some s') :
+theorem verifyBroadcastMessage_sameLife (s s' : State) (m : Msg) (h : verifyBroadcastMessage s m = .ok s') :
     SameLife s s' := (verifyBroadcastMessage_sameCore s s' m h).toSameLife
 
 theorem fillBh_sameLife (H : Bytes → Bytes) (s : State) : SameLife s (fillBh H s) := by
@@ -93,7 +101,14 @@ theorem fillBh_sameLife (H : Bytes → Bytes) (s : State) : SameLife s (fillBh H
     · exact SameLife.refl s
   · exact SameLife.refl s
 
-theorem replayStep_sameCore (sp : RoundSpec) (n : Nat) (acc : State × Option Bytes) (id : Bytes) (s0 : State)
+theorem failOf_sameCore (r : VRes) (frm : Bytes) (st s0 : State) (h : SameCore s0 st)
+    (hr : ∀ st', r = .ok st' → SameCore st st') : SameCore s0 (failOf r frm st).1 := by
+  cases r with
+  | ok st' => exact h.trans (hr st' rfl)
+  | bad => exact h
+  | echo => exact h
+
+theorem replayStep_sameCore (sp : RoundSpec) (n : Nat) (acc : State × Option Fail) (id : Bytes) (s0 : State)
     (h : SameCore s0 acc.1) : SameCore s0 (replayStep sp n acc id).1 := by
   obtain ⟨st, c⟩ := acc
   cases c with
@@ -105,19 +120,15 @@ theorem replayStep_sameCore (sp : RoundSpec) (n : Nat) (acc : State × Option By
       · exact h
       · split
         · exact h
-        · split
-          · exact h
-          · next st' hv => exact h.trans (verifyBroadcastMessage_sameCore _ _ _ hv)
+        · next m _ => exact failOf_sameCore _ _ _ _ h (fun st' hv => verifyBroadcastMessage_sameCore _ _ _ hv)
     · split
       · exact h
-      · split
-        · exact h
-        · next st' hv => exact h.trans (verifyMessage_sameCore _ _ _ hv)
+      · next m _ => exact failOf_sameCore _ _ _ _ h (fun st' hv => verifyMessage_sameCore _ _ _ hv)
 
 theorem replayQueued_sameCore (s : State) : SameCore s (replayQueued s).1 := by
   unfold replayQueued
   generalize s.sc.ids = ids
-  suffices h : ∀ (acc : State × Option Bytes), SameCore s acc.1 →
+  suffices h : ∀ (acc : State × Option Fail), SameCore s acc.1 →
       SameCore s (List.foldl (replayStep (curSpec s) s.cur) acc ids).1 from h (s, none) (SameCore.refl s)
   induction ids with
   | nil => intro acc h; exact h
@@ -258,6 +269,7 @@ theorem accept_good (H : Bytes → Bytes) (s : State) (m : Msg) (g : Good s) : G
       split
       · exact Or.inl l1
       · split
+        · exact Or.inr (abort_some_done _ _ l1)
         · exact Or.inr (abort_some_done _ _ l1)
         · next s2 hv =>
           apply finalize_good
@@ -412,6 +424,7 @@ theorem accept_pres {H : Bytes → Bytes} {P : State → Prop} (hp : Preserved H
       split
       · exact o1
       · split
+        · exact hp.onAbort _ _ o1
         · exact hp.onAbort _ _ o1
         · next s2 hv =>
           apply finalize_pres hp
